@@ -42,6 +42,10 @@ def trees():
     # a user-defined marker (documented extension point) between the transfer and the materialization
     m10 = ("mat", ("tag", ("xfer", selx, "it2")), "m10")
     out["user-marker"] = (m10, {"A": ("sort", m10, ((A_, False), (B_, True))), "B": ("xfer", ("dedup", m10), "it1")}, True)
+    # a materialization requested on a tree that an earlier process() returned: its transfer already carries a payload, and that
+    # payload is a lazy iterable because no materialization followed the transfer then (the hook contract allows that)
+    m11 = ("mat", ("proc", ("xfer", selx, "it2")), "m11")
+    out["mat-of-processed"] = (m11, {"A": ("sort", m11, ((A_, False), (B_, True))), "B": ("xfer", ("dedup", m11), "it1")}, True)
     m6 = ("mat", ("proj", X, ("a", "b")), "m6")
     out["chain-shared"] = (m6, {"A": ("chain", m6, m6), "B": ("chain", ("sel", m6, ("gt", A_, ("lit", "$k"))), m6)}, False)
     return out
